@@ -560,6 +560,123 @@ Definition rangeAppendAll_visit (stmt : node) : outcome :=
 
 Definition run_rangeAppendAll (f : file) : outcome := run_stmt rangeAppendAll_visit f.
 
+(* ---------- the guards the current tree lacks, as predicates on nodes ---------- *)
+Definition nonempty {A} (l : list A) : bool := match l with [] => false | _ => true end.
+
+(* len(call.Args) > 0 for every call whose callee is spelled like one of [names] *)
+Definition g_spelled_call_has_args (names : list string) (n : node) : bool :=
+  if is_tag TCall n then
+    match kids n with
+    | fn :: args => if mem (qualified_name fn) names then nonempty args else true
+    | [] => true
+    end
+  else true.
+
+Definition g_append_args := g_spelled_call_has_args ["append"].
+
+Definition g_new_args (n : node) : bool :=
+  if is_tag TCall n then
+    match kids n with
+    | fn :: args => if is_tag TIdent fn && String.eqb (nstr fn) "new" then nonempty args else true
+    | [] => true
+    end
+  else true.
+
+(* receiver type written without parentheses *)
+Fixpoint no_paren_recv (e : node) : bool :=
+  match e with
+  | Nd TStar _ _ _ _ _ (NC x NN) => no_paren_recv x
+  | Nd TIdent _ _ _ _ _ _ => true
+  | Nd TIndex _ _ _ _ _ (NC x _) => no_paren_recv x
+  | Nd TIndexList _ _ _ _ _ (NC x _) => no_paren_recv x
+  | _ => false
+  end.
+
+Definition g_recv_plain (d : node) : bool :=
+  if is_tag TFuncDecl d && N.eqb (na d) 1 then
+    match kids d with
+    | recv :: _ =>
+        match kids recv with
+        | fld :: _ => match nth_error (kids fld) (N.to_nat (na fld)) with Some ty => no_paren_recv ty | None => true end
+        | [] => true
+        end
+    | [] => true
+    end
+  else true.
+
+(* no function literal consists of a single bare `return` *)
+Definition g_lit_returns_value (n : node) : bool :=
+  match n with
+  | Nd TFuncLit _ _ _ _ _ (NC _ (NC body NN)) =>
+      match kids body with
+      | [ret] => if is_tag TReturn ret then nonempty (kids ret) else true
+      | _ => true
+      end
+  | _ => true
+  end.
+
+Definition recv_known (sel : node) : bool :=
+  match f_sig (nfacts sel) with Sig _ _ RNone _ => false | _ => true end.
+
+(* in `return a, a.f()` the selected f is a method (has a receiver), not a function-valued field *)
+Definition g_return_calls_methods (n : node) : bool :=
+  if is_tag TReturn n then
+    forallb (fun r =>
+               match kids r with
+               | Nd TSelector _ _ _ _ _ (NC x (NC sel NN)) :: _ =>
+                   if existsb (fun id => is_tag TIdent id && node_eqb x id) (kids n) then recv_known sel else true
+               | _ => true
+               end) (kids n)
+  else true.
+
+(* a variadic callee gets at least its fixed parameters: last <= len(call.Args) *)
+Definition g_variadic_fixed_args (n : node) : bool :=
+  if is_tag TCall n then
+    match kids n with
+    | fn :: args =>
+        match f_sig (nfacts fn) with
+        | Sig np true _ _ => Nat.leb (N.to_nat np - 1) (length args)
+        | _ => true
+        end
+    | [] => true
+    end
+  else true.
+
+(* flag.XxxVar(...) is written with at least two arguments *)
+Definition g_flagvar_two_args (n : node) : bool :=
+  if is_tag TCall n then
+    match kids n with
+    | Nd TSelector _ _ _ _ _ (NC x (NC sel NN)) :: args =>
+        match obj_of x with
+        | OPkgName path =>
+            if String.eqb path "flag" && mem (nstr sel) flag_names2 then Nat.leb 2 (length args) else true
+        | _ => true
+        end
+    | _ => true
+    end
+  else true.
+
+(* new(T) is never dereferenced for a basic T without literal spelling (complex, unsafe.Pointer) *)
+Definition g_new_has_literal (n : node) : bool :=
+  if is_tag TCall n then
+    match kids n with
+    | fn :: a0 :: _ =>
+        if is_tag TIdent fn && String.eqb (nstr fn) "new" then
+          match f_ty (nfacts a0) with TyBasicOther => false | _ => true end
+        else true
+    | _ => true
+    end
+  else true.
+
+(* no identifier spelled [name] denotes anything but the universe object / no qualifier [q] anything but package [path] *)
+Definition g_no_namesake_bare (name : string) (n : node) : bool :=
+  if is_tag TIdent n && String.eqb (nstr n) name
+  then okind_eqb (obj_of n) (OBuiltin name) else true.
+
+Definition g_no_namesake_qual (q path : string) (n : node) : bool :=
+  if is_tag TIdent n && String.eqb (nstr n) q
+  then okind_eqb (obj_of n) (OPkgName path) else true.
+
 (* ---------- registry of the modelled checkers (used by the tie) ---------- *)
 Definition run_by_name (name : string) (f : file) : option outcome :=
   if String.eqb name "appendCombine" then Some (run_appendCombine f)
